@@ -266,3 +266,25 @@ PROPS["C12"] = {
          "checks": {"quick": 1500, "thorough": 20000}, "shards": {"quick": 2, "thorough": 8}},
     ],
 }
+
+PROPS["C13"] = {
+    "level": "exploration",
+    "rule": ("errors (16 codes + OK for trailer forms, message unset/empty/ASCII/%/CR-LF/multi-byte UTF-8, 0-3 details of registered types with or without the optional debug member, metadata with special-character names and values) rendered by INDEPENDENT spec-conformant renderers of Connect error JSON, Connect end-stream JSON, gRPC-Web trailer blocks and gRPC status trailer sets, fed to the examiners directly and through examineWireDetails inside a synthetic trace: zero feedback required (WellFormed); "
+             "the same renderings under exactly one of ~70 catalogued malformation operators (missing/unknown/non-string code, duplicate key at any depth, unknown key, invalid metadata name/value, LF line ends, missing final CRLF, blank lines, upper-case key, broken %-escape, unescaped byte, padded/invalid base64, status/details/message disagreement, details with OK status, HTTP trailers on non-gRPC responses ...): feedback containing the class keyword required (Malformed); "
+             "E2E: each error is placed in a response definition and fetched by the exported reference client from an in-process reference server over Connect unary/stream, gRPC and gRPC-Web x proto/JSON x with/without response headers and trailers (the latter selects the server's raw gRPC/gRPC-Web trailer encoders): Feedback must be empty; Bytes/Fuzz: random, JSON-ish and mutated-valid byte strings into every examiner must not panic. "
+             "Non-trivial: message needing escaping or >=1 detail (well-formed); every malformed case."),
+    "assumptions": ["the 'te: trailers' and similar request-side checks are out of scope (C12)",
+                    "metadata values are valid UTF-8 in the JSON forms"],
+    "units": [
+        {"name": "C13WellFormed", "pkg": RC, "test": "TestVerifC13WellFormed", "kind": "rapid",
+         "checks": {"quick": 15000, "thorough": 200000}, "shards": {"quick": 2, "thorough": 8}},
+        {"name": "C13Malformed", "pkg": RC, "test": "TestVerifC13Malformed", "kind": "rapid",
+         "checks": {"quick": 15000, "thorough": 200000}, "shards": {"quick": 2, "thorough": 8}},
+        {"name": "C13Bytes", "pkg": RC, "test": "TestVerifC13Bytes", "kind": "rapid",
+         "checks": {"quick": 15000, "thorough": 200000}, "shards": {"quick": 2, "thorough": 8}},
+        {"name": "C13E2E", "pkg": RC, "test": "TestVerifC13E2E", "kind": "rapid",
+         "checks": {"quick": 1500, "thorough": 15000}, "shards": {"quick": 2, "thorough": 8}},
+        {"name": "C13Fuzz", "pkg": RC, "test": "FuzzVerifC13Examiners", "kind": "fuzz", "fuzz_target": "FuzzVerifC13Examiners",
+         "only_tiers": ["thorough"], "fuzztime": {"thorough": "90s"}, "workers": 16, "timeout": {"thorough": 900}},
+    ],
+}
